@@ -69,6 +69,15 @@ def make_simulator(prog, name="sim"):
 
 
 _etype_counter = [0]
+_FOREIGN = []
+
+
+def foreign_type():
+    """one process-wide event type that no statistic of a judged model listens to"""
+    if not _FOREIGN:
+        from pydsol.core.pubsub import EventType
+        _FOREIGN.append(EventType("verif_foreign_data"))
+    return _FOREIGN[0]
 _LABELLED = []
 
 
@@ -590,6 +599,11 @@ class Harness:
             else:
                 st = cls(key, "stat " + key, sim)
             self.stats[key] = st
+            if sp.get("foreign"):
+                # the statistic is also subscribed, directly, to an event type it does not listen to: such events are
+                # documented to be silently skipped (whatever other statistics of this process listen to)
+                self.foreign_prod = getattr(self, "foreign_prod", None) or EventProducer()
+                self.foreign_prod.add_listener(foreign_type(), st)
             if sp.get("baseline") is not None:
                 # a subscriber of the statistic's own INITIALIZED notification that registers a baseline observation right
                 # away (re-entrant call into the statistic from its own notification): it is an observation made after the reset
@@ -639,6 +653,11 @@ class Harness:
         kind = spec["kind"]
         t = sim.simulator_time
         self.timeline.append(("o", key, num(t), raw[2:]) if mark is None else ("o", key, num(t), raw[2:], mark))
+        if spec.get("foreign"):
+            # an event of the foreign type with a well-formed payload, before the real observation: skipped
+            from pydsol.core.pubsub import TimedEvent as _TE, Event as _E
+            fp = a[2] if kind != "wtally" else (a[2], a[3])
+            self.foreign_prod.fire_event(_TE(float(num(t)), foreign_type(), fp) if kind == "persistent" else _E(foreign_type(), fp))
         if spec.get("via") == "event":
             payload = a[2] if kind != "wtally" else (a[2], a[3])
             src = key
